@@ -1,17 +1,34 @@
 (* C15 - bridge: the definitions GENERATED from the current kawin/precipitation/parameters/ShapeFactors.py
-   (build/C15/ShapeFactors_gen.v, regenerated on every run) are the hand model of coq/C15/Model.v.
-   Every lemma here is closed by conversion ([reflexivity]): a change of the source that alters a
-   formula, a comparison, a constant, a constructor or the bisection loop makes one of them fail.
+   (build/C15/ShapeFactors_gen.v, regenerated on every run; the translator emits the NORMAL FORM of each method:
+   temporaries substituted, helpers inlined, idioms desugared) are EQUAL to the hand model of coq/C15/Model.v.
+   Each equality is tried by conversion first ([reflexivity]); where the source uses an equivalent idiom the
+   normal form differs from the model's text and the equality is proved pointwise:
+     np.maximum(ar, 1)  ->  Rmax ar 1            = if ar < 1 then 1 else ar
+     np.full(shape, c)  ->  c                     = c * 1
+     the loop update    ->  one conditional per state field = the model's two-branch update
+   A change of the source that alters a formula, a comparison, a constant, a constructor or the bisection makes
+   one of the lemmas fail.  The second half transfers every theorem to the generated names (lemmas gen_...).
    Compiled by the check only (logical path KawinRun), never by the static make. *)
-From Coq Require Import Reals List Bool ZArith.
-Require Import Kawin.Common.Ops Kawin.Common.Vec Kawin.C15.Model Kawin.C15.Bisection.
+From Coq Require Import Reals List Bool ZArith Lra FunctionalExtensionality.
+Require Import Kawin.Common.Ops Kawin.Common.Vec Kawin.C15.Model Kawin.C15.Proofs Kawin.C15.Bisection Kawin.C15.Analysis.
 Require Import KawinRun.ShapeFactors_gen.
 Open Scope R_scope.
 
 (* a failing comparison must fail quickly: the check has a time budget *)
 Ltac conv := timeout 60 reflexivity.
+Ltac fe := repeat (apply functional_extensionality; intro).
+Ltac decs :=
+  repeat match goal with
+  | |- context [Rlt_dec ?a ?b] => destruct (Rlt_dec a b)
+  | |- context [Rle_dec ?a ?b] => destruct (Rle_dec a b)
+  | |- context [Rgt_dec ?a ?b] => destruct (Rgt_dec a b)
+  | |- context [Rge_dec ?a ?b] => destruct (Rge_dec a b)
+  end.
+Ltac close := first [ reflexivity | ring | (unfold Rgt, Rge in *; lra) | (exfalso; unfold Rgt, Rge in *; lra) ].
+(* equality of two real functions: by conversion, else pointwise after deciding every comparison *)
+Ltac feq := timeout 120 (first [ reflexivity | fe; gen_unfold; unfold processAspectRatio, factor_wrapper, radii_wrapper, scalarAspectRatio, Rmax, Rmin; cbv zeta; decs; close ]).
 
-(* formulas *)
+(* formulas (normal forms with the temporaries substituted: convertible) *)
 Lemma br_eccentricity : Base_eccentricity_gen = ecc. Proof. conv. Qed.
 Lemma br_sphere_eqRadius : Sphere_eqRadius_gen = sphere_eqRadius. Proof. conv. Qed.
 Lemma br_sphere_normalRadii : Sphere_normalRadii_gen = sphere_normalRadii. Proof. conv. Qed.
@@ -31,12 +48,15 @@ Lemma br_cuboidal_kinetic : Cuboidal_kineticFactor_gen = cuboidal_kinetic. Proof
 Lemma br_cuboidal_thermo : Cuboidal_thermoFactor_gen = cuboidal_thermo. Proof. conv. Qed.
 
 (* wrappers: the clamp, the three mask idioms, normalRadii; the clamp builds a new array *)
-Lemma br_processAspectRatio : processAspectRatio_gen = processAspectRatio. Proof. conv. Qed.
+Lemma br_processAspectRatio : processAspectRatio_gen = processAspectRatio. Proof. feq. Qed.
 Lemma br_no_inplace_write : processAspectRatio_inplace_gen = false. Proof. conv. Qed.
-Lemma br_eqRadiusFactor_wrapper : eqRadiusFactor_wrapper_gen = factor_wrapper. Proof. conv. Qed.
-Lemma br_kineticFactor_wrapper : kineticFactor_wrapper_gen = factor_wrapper. Proof. conv. Qed.
-Lemma br_thermoFactor_wrapper : thermoFactor_wrapper_gen = factor_wrapper. Proof. conv. Qed.
-Lemma br_normalRadii_wrapper : normalRadii_wrapper_gen = radii_wrapper. Proof. conv. Qed.
+Ltac wrap := timeout 120 (first [ reflexivity
+  | fe; unfold eqRadiusFactor_wrapper_gen, kineticFactor_wrapper_gen, thermoFactor_wrapper_gen, normalRadii_wrapper_gen, factor_wrapper, radii_wrapper;
+    rewrite ?br_processAspectRatio; cbv zeta; decs; close ]).
+Lemma br_eqRadiusFactor_wrapper : eqRadiusFactor_wrapper_gen = factor_wrapper. Proof. wrap. Qed.
+Lemma br_kineticFactor_wrapper : kineticFactor_wrapper_gen = factor_wrapper. Proof. wrap. Qed.
+Lemma br_thermoFactor_wrapper : thermoFactor_wrapper_gen = factor_wrapper. Proof. wrap. Qed.
+Lemma br_normalRadii_wrapper : normalRadii_wrapper_gen = radii_wrapper. Proof. wrap. Qed.
 
 (* constructors: the `...Min` attributes *)
 Lemma br_Sphere : Sphere_gen = Sphere. Proof. conv. Qed.
@@ -45,23 +65,24 @@ Lemma br_Plate : Plate_gen = Plate. Proof. conv. Qed.
 Lemma br_Cuboidal : Cuboidal_gen = Cuboidal. Proof. conv. Qed.
 
 (* public functions of the four descriptions *)
-Ltac pub := timeout 60 (split; [|split; [|split]]; reflexivity).
-Lemma br_Sphere_public :
-  Sphere_eqRadiusFactor_public_gen = eqRadiusFactor Sphere /\ Sphere_kineticFactor_public_gen = kineticFactor Sphere /\
-  Sphere_thermoFactor_public_gen = thermoFactor Sphere /\ Sphere_normalRadii_public_gen = normalRadii Sphere.
-Proof. pub. Qed.
-Lemma br_Needle_public :
-  Needle_eqRadiusFactor_public_gen = eqRadiusFactor Needle /\ Needle_kineticFactor_public_gen = kineticFactor Needle /\
-  Needle_thermoFactor_public_gen = thermoFactor Needle /\ Needle_normalRadii_public_gen = normalRadii Needle.
-Proof. pub. Qed.
-Lemma br_Plate_public :
-  Plate_eqRadiusFactor_public_gen = eqRadiusFactor Plate /\ Plate_kineticFactor_public_gen = kineticFactor Plate /\
-  Plate_thermoFactor_public_gen = thermoFactor Plate /\ Plate_normalRadii_public_gen = normalRadii Plate.
-Proof. pub. Qed.
-Lemma br_Cuboidal_public :
-  Cuboidal_eqRadiusFactor_public_gen = eqRadiusFactor Cuboidal /\ Cuboidal_kineticFactor_public_gen = kineticFactor Cuboidal /\
-  Cuboidal_thermoFactor_public_gen = thermoFactor Cuboidal /\ Cuboidal_normalRadii_public_gen = normalRadii Cuboidal.
-Proof. pub. Qed.
+Ltac pub := timeout 60 (first [ reflexivity
+  | rewrite ?br_eqRadiusFactor_wrapper, ?br_kineticFactor_wrapper, ?br_thermoFactor_wrapper, ?br_normalRadii_wrapper; reflexivity ]).
+Lemma br_Sphere_eq : Sphere_eqRadiusFactor_public_gen = eqRadiusFactor Sphere. Proof. unfold Sphere_eqRadiusFactor_public_gen. pub. Qed.
+Lemma br_Sphere_kin : Sphere_kineticFactor_public_gen = kineticFactor Sphere. Proof. unfold Sphere_kineticFactor_public_gen. pub. Qed.
+Lemma br_Sphere_th : Sphere_thermoFactor_public_gen = thermoFactor Sphere. Proof. unfold Sphere_thermoFactor_public_gen. pub. Qed.
+Lemma br_Sphere_radii : Sphere_normalRadii_public_gen = normalRadii Sphere. Proof. unfold Sphere_normalRadii_public_gen. pub. Qed.
+Lemma br_Needle_eq : Needle_eqRadiusFactor_public_gen = eqRadiusFactor Needle. Proof. unfold Needle_eqRadiusFactor_public_gen. pub. Qed.
+Lemma br_Needle_kin : Needle_kineticFactor_public_gen = kineticFactor Needle. Proof. unfold Needle_kineticFactor_public_gen. pub. Qed.
+Lemma br_Needle_th : Needle_thermoFactor_public_gen = thermoFactor Needle. Proof. unfold Needle_thermoFactor_public_gen. pub. Qed.
+Lemma br_Needle_radii : Needle_normalRadii_public_gen = normalRadii Needle. Proof. unfold Needle_normalRadii_public_gen. pub. Qed.
+Lemma br_Plate_eq : Plate_eqRadiusFactor_public_gen = eqRadiusFactor Plate. Proof. unfold Plate_eqRadiusFactor_public_gen. pub. Qed.
+Lemma br_Plate_kin : Plate_kineticFactor_public_gen = kineticFactor Plate. Proof. unfold Plate_kineticFactor_public_gen. pub. Qed.
+Lemma br_Plate_th : Plate_thermoFactor_public_gen = thermoFactor Plate. Proof. unfold Plate_thermoFactor_public_gen. pub. Qed.
+Lemma br_Plate_radii : Plate_normalRadii_public_gen = normalRadii Plate. Proof. unfold Plate_normalRadii_public_gen. pub. Qed.
+Lemma br_Cuboidal_eq : Cuboidal_eqRadiusFactor_public_gen = eqRadiusFactor Cuboidal. Proof. unfold Cuboidal_eqRadiusFactor_public_gen. pub. Qed.
+Lemma br_Cuboidal_kin : Cuboidal_kineticFactor_public_gen = kineticFactor Cuboidal. Proof. unfold Cuboidal_kineticFactor_public_gen. pub. Qed.
+Lemma br_Cuboidal_th : Cuboidal_thermoFactor_public_gen = thermoFactor Cuboidal. Proof. unfold Cuboidal_thermoFactor_public_gen. pub. Qed.
+Lemma br_Cuboidal_radii : Cuboidal_normalRadii_public_gen = normalRadii Cuboidal. Proof. unfold Cuboidal_normalRadii_public_gen. pub. Qed.
 
 (* ShapeFactor: compositions with the aspect-ratio function, scalar aspect ratio, dispatch *)
 Lemma br_sf_eqRadiusFactor d aspect :
@@ -72,23 +93,174 @@ Lemma br_sf_thermoFactor d aspect :
   ShapeFactor_thermoFactor_gen (thermoFactor d) aspect = sf_thermoFactor d aspect. Proof. conv. Qed.
 Lemma br_sf_normalRadii d aspect :
   ShapeFactor_normalRadii_gen (normalRadii d) aspect = sf_normalRadii d aspect. Proof. conv. Qed.
-Lemma br_scalarAspectRatio : scalarAspectRatio_gen = scalarAspectRatio. Proof. conv. Qed.
+Lemma br_scalarAspectRatio : scalarAspectRatio_gen = scalarAspectRatio. Proof. feq. Qed.
 Lemma br_dispatch : setAspectRatio_dispatch_gen = true. Proof. conv. Qed.
 Lemma br_findRcritScalar : findRcritScalar_gen = findRcritScalar. Proof. conv. Qed.
 
-(* the bisection, at every scalar instance (reals for the theorems, binary64 for the trace check) *)
-Lemma br_findRcrit_step O tf Rs : findRcrit_step_gen O tf Rs = bstep O tf Rs. Proof. conv. Qed.
-Lemma br_findRcrit_init O tf Rs : findRcrit_init_gen O tf Rs = binit O tf Rs. Proof. conv. Qed.
+(* the bisection, at every scalar instance (reals for the theorems, binary64 for the trace check): the
+   generated update is in normal form (one conditional per field), the model's is a two-branch update *)
+Lemma br_findRcrit_step O tf Rs s : findRcrit_step_gen O tf Rs s = bstep O tf Rs s.
+Proof.
+  timeout 60 (first [ reflexivity
+    | unfold findRcrit_step_gen, bstep, two, objective;
+      repeat match goal with |- context [if ?c then _ else _] => destruct c end; reflexivity ]).
+Qed.
+Lemma br_findRcrit_init O tf Rs Rmax : findRcrit_init_gen O tf Rs Rmax = binit O tf Rs Rmax. Proof. conv. Qed.
 Lemma br_findRcrit_maxiter : findRcrit_maxiter_gen = 100%nat. Proof. conv. Qed.
 Lemma br_findRcrit_loop O tf Rs tol fuel n s :
   findRcrit_loop_gen O tf Rs tol fuel n s = bloop O tf Rs tol fuel n s.
-Proof. revert n s. induction fuel as [|k IH]; intros n s; cbn [findRcrit_loop_gen bloop]; [conv|rewrite IH; conv]. Qed.
+Proof.
+  revert n s. induction fuel as [|k IH]; intros n s; cbn [findRcrit_loop_gen bloop]; [conv|].
+  rewrite br_findRcrit_step, IH. conv.
+Qed.
 Lemma br_findRcrit O tf Rs tol Rmax : findRcrit_gen O tf Rs tol Rmax = findRcrit O tf Rs tol Rmax.
-Proof. unfold findRcrit_gen, findRcrit. rewrite br_findRcrit_loop. conv. Qed.
+Proof. unfold findRcrit_gen, findRcrit. rewrite br_findRcrit_loop, br_findRcrit_init. conv. Qed.
 Lemma br_findRcrit_value O tf Rs tol Rmax : findRcrit_value_gen O tf Rs tol Rmax = findRcrit_value O tf Rs tol Rmax.
 Proof. unfold findRcrit_value_gen, findRcrit_value. rewrite br_findRcrit. conv. Qed.
 
-(* transfer of the convergence theorem (existential statement) to the generated loop *)
+(* ---- transfer: every statement about the generated names follows from the one about the model ------- *)
+Ltac to_model :=
+  rewrite ?br_Sphere_eq, ?br_Sphere_kin, ?br_Sphere_th, ?br_Sphere_radii, ?br_Needle_eq, ?br_Needle_kin, ?br_Needle_th, ?br_Needle_radii,
+          ?br_Plate_eq, ?br_Plate_kin, ?br_Plate_th, ?br_Plate_radii, ?br_Cuboidal_eq, ?br_Cuboidal_kin, ?br_Cuboidal_th, ?br_Cuboidal_radii,
+          ?br_eqRadiusFactor_wrapper, ?br_kineticFactor_wrapper, ?br_thermoFactor_wrapper, ?br_normalRadii_wrapper,
+          ?br_Sphere, ?br_Needle, ?br_Plate, ?br_Cuboidal, ?br_processAspectRatio,
+          ?br_findRcrit, ?br_findRcrit_value, ?br_findRcrit_init,
+          ?br_sf_eqRadiusFactor, ?br_sf_kineticFactor, ?br_sf_thermoFactor, ?br_sf_normalRadii, ?br_scalarAspectRatio, ?br_dispatch, ?br_findRcritScalar.
+
+Lemma gen_no_inplace_write : processAspectRatio_inplace_gen = false.
+Proof. exact br_no_inplace_write. Qed.
+
+Lemma gen_sphere_axes ar :
+  let v := Sphere_normalRadii_public_gen ar in
+  ellipsoid_volume (ax1 v) (ax2 v) (ax3 v) = 1 /\ ax1 v = ax2 v /\ ax2 v = ax3 v /\ 0 < ax1 v.
+Proof. to_model. exact (sphere_axes_public ar). Qed.
+
+Lemma gen_needle_axes ar : 1 <= ar ->
+  let v := Needle_normalRadii_public_gen ar in
+  ellipsoid_volume (ax1 v) (ax2 v) (ax3 v) = 1 /\ ax1 v = ax2 v /\ ax3 v = ar * ax1 v /\ 0 < ax1 v.
+Proof. to_model. exact (needle_axes_public ar). Qed.
+
+Lemma gen_plate_axes ar : 1 <= ar ->
+  let v := Plate_normalRadii_public_gen ar in
+  ellipsoid_volume (ax1 v) (ax2 v) (ax3 v) = 1 /\ ax1 v = ax2 v /\ ax1 v = ar * ax3 v /\ 0 < ax3 v.
+Proof. to_model. exact (plate_axes_public ar). Qed.
+
+Lemma gen_cuboidal_axes ar : 1 <= ar ->
+  let v := Cuboidal_normalRadii_public_gen ar in
+  cuboid_volume (ax1 v) (ax2 v) (ax3 v) = 1 /\ ax1 v = ax2 v /\ ax3 v = ar * ax1 v /\ 0 < ax1 v.
+Proof. to_model. exact (cuboidal_axes_public ar). Qed.
+
+Lemma gen_needle_thermo_is_area_ratio a ar : 0 < a -> 1 < ar ->
+  Needle_thermoFactor_public_gen ar =
+  prolate_area a (ar * a) / sphere_area (eq_sphere_radius (ellipsoid_volume a a (ar * a))).
+Proof. to_model. exact (needle_thermo_public_area a ar). Qed.
+
+Lemma gen_plate_thermo_is_area_ratio c ar : 0 < c -> 1 < ar ->
+  Plate_thermoFactor_public_gen ar =
+  oblate_area (ar * c) c / sphere_area (eq_sphere_radius (ellipsoid_volume (ar * c) (ar * c) c)).
+Proof. to_model. exact (plate_thermo_public_area c ar). Qed.
+
+Lemma gen_needle_kinetic_is_capacitance_ratio a ar : 0 < a -> 1 < ar ->
+  Needle_kineticFactor_public_gen ar =
+  prolate_capacitance a (ar * a) / eq_sphere_radius (ellipsoid_volume a a (ar * a)).
+Proof. to_model. exact (needle_kinetic_public_capacitance a ar). Qed.
+
+Lemma gen_plate_kinetic_is_capacitance_ratio c ar : 0 < c -> 1 < ar ->
+  Plate_kineticFactor_public_gen ar =
+  oblate_capacitance (ar * c) c / eq_sphere_radius (ellipsoid_volume (ar * c) (ar * c) c).
+Proof. to_model. exact (plate_kinetic_public_capacitance c ar). Qed.
+
+Lemma gen_eqRadius_is_equal_volume_radius s ar : 0 < s -> 1 < ar ->
+  Needle_eqRadiusFactor_public_gen ar = eq_sphere_radius (ellipsoid_volume s s (ar * s)) / s /\
+  Plate_eqRadiusFactor_public_gen ar = eq_sphere_radius (ellipsoid_volume (ar * s) (ar * s) s) / s /\
+  Cuboidal_eqRadiusFactor_public_gen ar = eq_sphere_radius (cuboid_volume s s (ar * s)) / s /\
+  sphere_volume (eq_sphere_radius (ellipsoid_volume s s (ar * s))) = ellipsoid_volume s s (ar * s).
+Proof. to_model. exact (eqRadius_public_geom s ar). Qed.
+
+Lemma gen_cuboidal_thermo_is_area_ratio s ar : 0 < s -> 1 < ar ->
+  Cuboidal_thermoFactor_public_gen ar =
+  cuboid_area s s (ar * s) / sphere_area (eq_sphere_radius (cuboid_volume s s (ar * s))).
+Proof. to_model. exact (cuboidal_thermo_public_area s ar). Qed.
+
+Lemma gen_factors_one_at_one ar : ar <= 1 ->
+  (Sphere_eqRadiusFactor_public_gen ar = 1 /\ Sphere_kineticFactor_public_gen ar = 1 /\ Sphere_thermoFactor_public_gen ar = 1) /\
+  (Needle_eqRadiusFactor_public_gen ar = 1 /\ Needle_kineticFactor_public_gen ar = 1 /\ Needle_thermoFactor_public_gen ar = 1) /\
+  (Plate_eqRadiusFactor_public_gen ar = 1 /\ Plate_kineticFactor_public_gen ar = 1 /\ Plate_thermoFactor_public_gen ar = 1).
+Proof. to_model. exact (fun H => conj (factors_one_at_one ar H Sphere (or_introl eq_refl))
+               (conj (factors_one_at_one ar H Needle (or_intror (or_introl eq_refl)))
+                     (factors_one_at_one ar H Plate (or_intror (or_intror (or_introl eq_refl)))))). Qed.
+
+Lemma gen_needle_eqRadius_increasing x y : 1 <= x -> x < y ->
+  Needle_eqRadiusFactor_public_gen x < Needle_eqRadiusFactor_public_gen y.
+Proof. to_model. exact (needle_eqRadius_incr x y). Qed.
+
+Lemma gen_plate_eqRadius_increasing x y : 1 <= x -> x < y ->
+  Plate_eqRadiusFactor_public_gen x < Plate_eqRadiusFactor_public_gen y.
+Proof. to_model. exact (plate_eqRadius_incr x y). Qed.
+
+Lemma gen_needle_kinetic_increasing x y : 1 <= x -> x < y ->
+  Needle_kineticFactor_public_gen x < Needle_kineticFactor_public_gen y.
+Proof. to_model. exact (needle_kineticFactor_incr x y). Qed.
+
+Lemma gen_plate_kinetic_increasing x y : 1 <= x -> x < y ->
+  Plate_kineticFactor_public_gen x < Plate_kineticFactor_public_gen y.
+Proof. to_model. exact (plate_kineticFactor_incr x y). Qed.
+
+Lemma gen_needle_thermo_increasing x y : 1 <= x -> x < y ->
+  Needle_thermoFactor_public_gen x < Needle_thermoFactor_public_gen y.
+Proof. to_model. exact (needle_thermoFactor_incr x y). Qed.
+
+Lemma gen_plate_thermo_increasing x y : 1 <= x -> x < y ->
+  Plate_thermoFactor_public_gen x < Plate_thermoFactor_public_gen y.
+Proof. to_model. exact (plate_thermoFactor_incr x y). Qed.
+
+Lemma gen_continuous_at_one :
+  (continuity_pt Sphere_eqRadiusFactor_public_gen 1 /\ continuity_pt Sphere_kineticFactor_public_gen 1 /\ continuity_pt Sphere_thermoFactor_public_gen 1) /\
+  (continuity_pt Needle_eqRadiusFactor_public_gen 1 /\ continuity_pt Needle_kineticFactor_public_gen 1 /\ continuity_pt Needle_thermoFactor_public_gen 1) /\
+  (continuity_pt Plate_eqRadiusFactor_public_gen 1 /\ continuity_pt Plate_kineticFactor_public_gen 1 /\ continuity_pt Plate_thermoFactor_public_gen 1) /\
+  (continuity_pt Cuboidal_eqRadiusFactor_public_gen 1 /\ continuity_pt Cuboidal_kineticFactor_public_gen 1 /\ continuity_pt Cuboidal_thermoFactor_public_gen 1).
+Proof. to_model. exact (conj (continuous_at_one_all Sphere (or_introl eq_refl))
+        (conj (continuous_at_one_all Needle (or_intror (or_introl eq_refl)))
+        (conj (continuous_at_one_all Plate (or_intror (or_intror (or_introl eq_refl))))
+              (continuous_at_one_all Cuboidal (or_intror (or_intror (or_intror (or_introl eq_refl)))))))). Qed.
+
+Lemma gen_below_one_as_one ar : ar < 1 ->
+  forall d, In d (Sphere_gen :: Needle_gen :: Plate_gen :: Cuboidal_gen :: nil) ->
+  eqRadiusFactor_wrapper_gen (eqMin d) (eqRaw d) ar = eqRadiusFactor_wrapper_gen (eqMin d) (eqRaw d) 1 /\
+  kineticFactor_wrapper_gen (kinMin d) (kinRaw d) ar = kineticFactor_wrapper_gen (kinMin d) (kinRaw d) 1 /\
+  thermoFactor_wrapper_gen (thMin d) (thRaw d) ar = thermoFactor_wrapper_gen (thMin d) (thRaw d) 1 /\
+  normalRadii_wrapper_gen (radiiRaw d) ar = normalRadii_wrapper_gen (radiiRaw d) 1.
+Proof. to_model. exact (fun H d _ => below_one_as_one d ar H). Qed.
+
+Lemma gen_shapefactor_composition (d : description) (aspect : R -> R) (r : R) :
+  ShapeFactor_eqRadiusFactor_gen (eqRadiusFactor d) aspect r = eqRadiusFactor d (aspect r) /\
+  ShapeFactor_kineticFactor_gen (kineticFactor d) aspect r = kineticFactor d (aspect r) /\
+  ShapeFactor_thermoFactor_gen (thermoFactor d) aspect r = thermoFactor d (aspect r) /\
+  ShapeFactor_normalRadii_gen (normalRadii d) aspect r = normalRadii d (aspect r) /\
+  (forall a, scalarAspectRatio_gen a r = a * 1) /\ setAspectRatio_dispatch_gen = true.
+Proof. to_model. repeat split; reflexivity. Qed.
+
+Lemma gen_findRcrit_root (tf : R -> R) (Rs tol Rmax r : R) n :
+  findRcrit_gen Rops tf Rs tol Rmax = Found Rops r n ->
+  Rabs (r / (Rs * tf r) - 1) <= tol /\ (n <= 99)%nat /\
+  (Rs <= Rmax -> Rs <= r <= Rmax) /\
+  (Rs <= Rmax -> exists a b, Rs <= a /\ b <= Rmax /\ b - a = (Rmax - Rs) / 2 ^ n /\ r = (a + b) / 2) /\
+  (0 <= tol -> (Rs / (Rs * tf Rs) - 1) * (Rmax / (Rs * tf Rmax) - 1) < 0 ->
+     exists a b, r = (a + b) / 2 /\ b - a = (Rmax - Rs) / 2 ^ n /\ (a / (Rs * tf a) - 1) * (b / (Rs * tf b) - 1) < 0).
+Proof. to_model. exact (findRcrit_found_root tf Rs tol Rmax r n). Qed.
+
+Lemma gen_findRcrit_relative (tf : R -> R) (Rs tol Rmax r : R) n :
+  findRcrit_gen Rops tf Rs tol Rmax = Found Rops r n -> Rs * tf r <> 0 ->
+  Rabs (r - Rs * tf r) <= tol * Rabs (Rs * tf r).
+Proof. to_model. exact (findRcrit_found_relative tf Rs tol Rmax r n). Qed.
+
+Lemma gen_findRcrit_gaveup (tf : R -> R) (Rs tol Rmax : R) :
+  findRcrit_gen Rops tf Rs tol Rmax = GaveUp Rops ->
+  findRcrit_value_gen Rops tf Rs tol Rmax = Rs /\
+  forall j, (j <= 99)%nat ->
+    tol < Rabs (objective Rops tf Rs (midR (biter Rops tf Rs j (findRcrit_init_gen Rops tf Rs Rmax)))).
+Proof. to_model. exact (findRcrit_gaveup tf Rs tol Rmax). Qed.
+
 Lemma gen_findRcrit_converges (tf : R -> R) (Rs tol Rmax L : R) :
   Rs <= Rmax -> 0 <= tol ->
   (forall x y, Rs <= x <= Rmax -> Rs <= y <= Rmax ->
@@ -97,8 +269,10 @@ Lemma gen_findRcrit_converges (tf : R -> R) (Rs tol Rmax L : R) :
   L * (Rmax - Rs) <= tol * 2 ^ 100 ->
   exists r n, findRcrit_gen Rops tf Rs tol Rmax = Found Rops r n /\ (n <= 99)%nat /\
               Rs <= r <= Rmax /\ Rabs (r / (Rs * tf r) - 1) <= tol /\ findRcrit_value_gen Rops tf Rs tol Rmax = r.
-Proof.
-  intros H1 H2 H3 H4 H5.
-  destruct (findRcrit_converges tf Rs tol Rmax L H1 H2 H3 H4 H5) as [r [n [E1 [E2 [E3 [E4 E5]]]]]].
-  exists r, n. rewrite br_findRcrit, br_findRcrit_value. repeat split; try assumption; apply E3.
-Qed.
+Proof. to_model. exact (findRcrit_converges tf Rs tol Rmax L). Qed.
+
+Lemma gen_findRcritScalar_root (d : description) (a Rs Rmax : R) :
+  let tf := ShapeFactor_thermoFactor_gen (thermoFactor d) (scalarAspectRatio_gen a) in
+  let r := findRcritScalar_gen tf Rs Rmax in
+  r = Rs * tf r /\ (Rs * tf Rs <> 0 -> r / (Rs * tf r) - 1 = 0).
+Proof. to_model. exact (findRcritScalar_exact d a Rs Rmax). Qed.
